@@ -188,27 +188,39 @@ def action_shape(a):
             "numeric": sum(1 for x in flatten(a["eff"]) if x in ("assign", "increase", "decrease"))}
 
 
-def build_seqs(rng, w, objs, n_states, tier, calls_per_action=2, only=None):
+def build_seqs(rng, w, objs, n_states, tier, calls_per_action=2, only=None, calls_fn=None):
     """call sequences on ONE Operator object per (action, call)"""
     seqs = []
     for a in w.actions:
         if only is not None and a["name"] not in only:
             continue
         nwhen, nuniv = count_groups(a)
-        for args in G.calls_for(rng, w, objs, a, limit=calls_per_action):
+        for args in (calls_fn or G.calls_for)(rng, w, objs, a, limit=calls_per_action):
             for kind in ("chain", rng.choice(["spread", "mixed"])):
                 ks = perm_choices(rng, 1 + nwhen, nuniv, "quick")
-                k = rng.choice(ks)
-                seqs.append({"action": a["name"], "args": args, "start": rng.randrange(n_states), "perm": k,
-                             "uperm": None if k is None else rng.randrange(max(1, n_perms(nuniv))),
-                             "inner_seed": 0 if k is None else rng.randint(1, 10 ** 6), "kind": kind,
-                             "steps": seq_steps(rng, n_states, kind, rng.choice([3, 4] if kind == "chain" else [3, 4, 5])),
-                             "d40_class": d40_class(a["eff"]), "qconst": ranges_over_constant(w, a), "shape": action_shape(a)})
+                # thorough: every sequence shape under the natural order AND under a forced permutation
+                for k in ([rng.choice(ks)] if tier == "quick" or len(ks) == 1 else [None, rng.choice(ks[1:])]):
+                    seqs.append({"action": a["name"], "args": args, "start": rng.randrange(n_states), "perm": k,
+                                 "uperm": None if k is None else rng.randrange(max(1, n_perms(nuniv))),
+                                 "inner_seed": 0 if k is None else rng.randint(1, 10 ** 6), "kind": kind,
+                                 "steps": seq_steps(rng, n_states, kind, rng.choice([3, 4] if kind == "chain" else [3, 4, 5])),
+                                 "d40_class": d40_class(a["eff"]), "qconst": ranges_over_constant(w, a),
+                                 "shape": action_shape(a)})
     return seqs
 
 
+def guard_calls(rng, w, objs, a, limit):
+    """calls for the guard-shape stream: half of them with the SAME object for the last two parameters (the ones the
+    generated (in)equalities compare), half with different ones"""
+    calls = G.calls_for(rng, w, objs, a, limit=400)
+    same = [c for c in calls if len(c) >= 2 and c[-1] == c[-2]]
+    diff = [c for c in calls if not (len(c) >= 2 and c[-1] == c[-2])]
+    out = same[:(limit + 1) // 2] + diff[:limit // 2]
+    return out or calls[:limit]
+
+
 def build_world(rng, w, tier, n_states, calls_per_action, name="dom", noise=True, stream="random", seq_only=None,
-                seq_calls=2):
+                seq_calls=2, calls_fn=None):
     objs = G.gen_objects(rng, w)
     text = G.render(w.domain_tree(name), rng, noise)
     states, ptexts, probes = [], [], []
@@ -218,7 +230,7 @@ def build_world(rng, w, tier, n_states, calls_per_action, name="dom", noise=True
         ptexts.append(G.problem_text(w, objs, st, domain=name))
         for a in w.actions:
             nwhen, nuniv = count_groups(a)
-            for args in G.calls_for(rng, w, objs, a, limit=calls_per_action):
+            for args in (calls_fn or G.calls_for)(rng, w, objs, a, limit=calls_per_action):
                 for k in perm_choices(rng, 1 + nwhen, nuniv, tier):
                     probes.append({"action": a["name"], "args": args, "state": si, "perm": k,
                                    "uperm": None if k is None else rng.randrange(max(1, n_perms(nuniv))),
@@ -227,7 +239,7 @@ def build_world(rng, w, tier, n_states, calls_per_action, name="dom", noise=True
                                    "shape": {"nwhen": nwhen, "nuniv": nuniv,
                                              "numeric": sum(1 for x in flatten(a["eff"]) if x in ("assign", "increase", "decrease"))}})
     return {"domain_text": text, "objects": objs, "states": states, "problem_texts": ptexts, "probes": probes,
-            "seqs": build_seqs(rng, w, objs, n_states, tier, calls_per_action=seq_calls, only=seq_only),
+            "seqs": build_seqs(rng, w, objs, n_states, tier, calls_per_action=seq_calls, only=seq_only, calls_fn=calls_fn),
             "stream": stream, "features": sorted(w.features), "witness_of": None, "compact": False}
 
 
@@ -653,6 +665,13 @@ def generate(rng, tier):
         if plant_when_forall(rng, w):
             worlds.append(build_world(rng, w, tier, n_states=2, calls_per_action=3, stream="when-forall"))
             k += 1
+    # preconditions of ONE kind only (only (in)equalities, only a forall, only an 'or', only comparisons, empty): refusal
+    # and the forced successor where the library keeps the precondition's parts in different places
+    from ..guardgen import SHAPES, shape_preconditions
+    for i in range(max(len(SHAPES), n // 4)):
+        w = G.gen_world(rng, max_actions=1)
+        shape_preconditions(rng, w, shapes=[SHAPES[i % len(SHAPES)]])
+        worlds.append(build_world(rng, w, tier, n_states=2, calls_per_action=4, stream="guard-shape", calls_fn=guard_calls))
     k = 0
     while k < n // 4:
         w = G.gen_world(rng, max_actions=2)
@@ -718,7 +737,7 @@ def run(args):
     else:
         worlds, exhaustive = generate(rng, args.tier)
     cfg = run_impl([{"op": "c03.numeric_config"}], nproc=1)[0]
-    hashseeds = [0] if args.tier == "quick" else [0, 1, 2]
+    hashseeds = [0] if args.tier == "quick" else [0, 1, 2, 3]
     all_cases, verdict_list, skipped_ok = [], [], 0
     info_total = {"shards": 0, "shard_errors": [], "cmd": ""}
     stats = {"worlds": 0, "worlds_by_stream": {}, "parse_raised": 0, "probes": 0, "app_true": 0, "app_false": 0, "app_raised": 0,
@@ -744,7 +763,7 @@ def run(args):
         # further hash seeds only change the NATURAL iteration order of the hash sets (forced permutations are already
         # exhaustive): they re-run every stream, but only every 4th body of the small scope
         all_worlds = base_worlds if hs == hashseeds[0] else \
-            [w for i, w in enumerate(base_worlds) if w["stream"] != "small-scope" or i % 4 == hs % 4]
+            [w for i, w in enumerate(base_worlds) if w["stream"] != "small-scope" or i % 6 == hs % 6]
         # in batches: results of a batch are released before the next one (the thorough tier has ~10^5 probes)
         for b0 in range(0, len(all_worlds), BATCH):
             worlds = all_worlds[b0:b0 + BATCH]
@@ -935,17 +954,24 @@ def run(args):
     cov["exhaustive"] = bool(exhaustive)
     cov["exhaustive_scope"] = ("all effect bodies of 1 or 2 items out of %d (7 primitive effects, 25 'when', 24 'forall-when' over types t and its "
                                "subtype u) x all 8 fact sets over {p o0, p o1, q} x 2 fluent valuations x 2 calls: %d bodies%s"
-                               % (len(xs_items()), len(xs_bodies()), " under the first hash seed, every 4th body under the two further hash seeds" if exhaustive
+                               % (len(xs_items()), len(xs_bodies()), " under the first hash seed, every 6th body under each of the three further hash seeds; per body also 16 chains of 3 calls and 2 spreads over all 16 states on one Operator object" if exhaustive
                                   else " (quick tier: a fixed core of 6 bodies + a sample of 18)"))
     cov["rule"] = ("streams: corpus witnesses; the repository's own domains with conditional/universal effects (miconic, learned miconic, nurikabe, spider) with "
                    "their shipped problems, states taken along a guided random walk; random typed domains (pddlgen: <=4 types, constants, 2-4 predicates, <=3 functions, actions with "
                    "add/del/assign/increase/decrease/when/forall-when kept consistent, layout/case/comment noise), 2-3 objects, random states, "
-                   "type-correct calls incl. repeated objects and constants; the same with a quantified conjunct planted in a 'when' condition (D40 class); "
-                   "the same with a clashing 'when' planted (inconsistent: judged only for 'no crash' by the spec, still compared with the model when the "
-                   "visiting order was observed); the small scope. Every (state, call) is applied in the natural hash order and in forced permutations of "
+                   "type-correct calls incl. repeated objects and constants; read-write: an action whose 'when' / 'forall-when' conditions and right-hand sides READ the fluent its "
+                   "unconditional group WRITES (and the other way round), half of them with a constant of the quantified type; guard-shape: preconditions of one kind only (only "
+                   "(in)equalities, only a forall, only an 'or', only comparisons, empty), called with equal and with different objects; quantified-constant: a constant of a type "
+                   "that a forall-when / a quantified 'when' condition ranges over (D30 class); a quantified conjunct planted in a 'when' condition (D40 class); delete+add of one atom "
+                   "in one group; clashing groups planted (a 'when' or the instances of a 'forall-when' against the unconditional group / each other): there the spec successor is "
+                   "undefined and the returned state is judged by the frame/membership oracle (Corr/C03.v weak_succ_ok) and compared EXACTLY with the model run in the observed "
+                   "visiting order; the small scope. Every (state, call) is applied in the natural hash order and in forced permutations of "
                    "the parse order (all permutations in thorough when <=4 groups), sets inside a group shuffled too; two units per probe: successor with "
-                   "default flags (incl. ValueError on refusal) and forced successor (allow_inapplicable_actions). Non-trivial: the call returned a "
-                   "successor and evaluated at least one conditional/universal group, or applied a numeric effect, or >=2 literals; distinct by input hash.")
+                   "default flags (incl. ValueError on refusal) and forced successor (allow_inapplicable_actions). CALL SEQUENCES on ONE Operator object (two units each: states read "
+                   "back at once / the same State objects read back after the last call): chains (every call gets the state the previous call returned, mixed allow flags: "
+                   "executed-after-executed, refused-then-allowed), spreads (fresh unrelated states in turn) and mixtures, in every generated stream and from every state of the small "
+                   "scope; model and spec run their own chains. Non-trivial: the call returned a successor and evaluated at least one conditional/universal group, or applied a "
+                   "numeric effect, or >=2 literals (a sequence: >=2 executed calls with such an effect); distinct by input hash.")
     def sample_of(c):
         w = c["input"]["world"]
         pr = c["input"].get("probe") or (w.get("probes") or [{}])[0]
@@ -955,5 +981,6 @@ def run(args):
     cov["samples"] += [sample_of(c) for c in all_cases[-3:]]
     rep.assumptions = ["fluent magnitudes below 1e4 and no division by a fluent (C12 covers the arithmetic kernel)", "ASCII text",
                        "states define every fluent",
-                       "effects consistent (inconsistent probes are skipped by the spec's own test; model = implementation is still required when the order was observed)"]
+                       "effects consistent for the successor oracle (inconsistent probes: frame/membership oracle + exact agreement with the model in the observed visiting order)",
+                       "a sequence re-uses ONE Operator object; states handed to it are the objects it returned or fresh copies"]
     return rep.finish()
